@@ -18,23 +18,36 @@ What is proved here (kernel-checked, no bound on sizes, histories, runes, colour
   every command list of every draw is admissible (`LayerB.draw_admits`).
 * `cup_accepted_all` (C09) — the expansion of `cup` is accepted by the strict tokenizer for ALL rows and columns.
 
-`_partial` because of what is assumed rather than proved:
-  (1) `CfgB.fx : CapsFx c rc` — the effect on the emulator of the bytes rendered for each command kind.  For the class
-      `XtermLike` the following parts are proved (`Lemmas/LayerBXterm.lean`, `Lemmas/LayerBCaps.lean`): cursor addressing
-      for all positions (`xl_goto_effect`), cursor hiding (`xl_hide_effect`), attribute reset in all seven forms
-      (`xl_attrOff_effect`), **the whole style block** for every style without colours / underline / hyperlink and any
-      combination of bold, blink, reverse, dim, italic, strike-through (`xl_setPen_attrs_effect`: pen = `penOf rc s`
-      exactly, i.e. `CapsFx.pen` restricted to such styles), every single attribute / underline-style / colour-reset / hyperlink-off string
-      (`bold_effect` … `urlClose_effect`), and the closed forms of every parameterised expansion for all parameter values
-      (`parm_cup`, `parm_setaf256`, `parm_setab256`, `parm_setfgbg256`, `parm_setfRGB`, … ) which the emulator lemmas
-      `sgr_fg_256_effect`, `sgr_*_rgb_effect`, … consume.  NOT yet assembled: colours and underline inside `setPen`, `showCursor`, `clear`: that composition is validated on every run by the correspondence + reference emulator.
+* **`xl_show_faithful_bytes`, `xl_sync_faithful_bytes`, `xl_output_wellformed`, `xl_rep_after`** and their database instances
+  **`db_show_faithful_bytes`, `db_sync_faithful_bytes`, `db_output_wellformed`** — the same statements WITHOUT the hypothesis
+  `CfgB` for every terminal description in `XtermLike` (the 22 database entries; also those entries after LookupTerminfo
+  has added the direct-colour strings, `tiDirect_xl`), for the configuration the driver builds (`drawCfgOf`/`renderCfgOf`).
+  `CapsFx` is proved for the class in `Lemmas/LayerBXtermFx.lean` (`xl_capsFx`): `xl_setPen_effect` (the whole style block
+  for EVERY style without hyperlink: sgr0, sendFgBg with default / reset / palette / direct / fitted colours through
+  setaf, setab, setfgbg, the three RGB strings, bold, underline colour indexed / direct / reset + smul + the four underline
+  styles, reverse, blink, dim, italic, strike, OSC 8 off → pen = `penOf rc s` exactly), `xl_show_effect` (the four `cnorm`
+  forms + DECSCUSR for cursor styles 0…6), `xl_clear_effect` (sgr0 + OSC 8 off + colours + either `clear` form: every cell a
+  known blank with the style's background, cursor home).  Non-vacuity: `bDemo`, `bDirect` (kernel-evaluated emulator grid).
+
+The generic theorems keep the suffix `_partial` because they are relative to `CfgB`; for the `xl_`/`db_` theorems what remains
+assumed / outside is:
+  (1) `FitOk rc` — the colour-fitting function (go-colorful's nearest-colour search, an external function, parameter
+      `RenderCfg.fit`) returns an entry of the screen's palette.  Nothing else is assumed about it: the theorem holds for
+      whatever palette entry it picks, and `penOf` names that entry.  `fitOk_findColor` / `xl_fitOk_findColor`: tcell's own
+      `FindColor` scan (model `Color.findColor`) over the screen's palette satisfies it for ANY colour distance, so what is
+      really assumed is only that the `fit` table the model is run with is that scan (checked per run by the correspondence).
   (2) hyperlinks (`Style.url ≠ ""`), cursor-colour requests, the four corner-trick entries and terminals without a
-      hide-cursor string are outside the domain (`OpB`, `CfgB`).
+      hide-cursor string are outside the domain (`OpB`, `XtermLike`); terminals outside `XtermLike` (27 database entries,
+      see `db_xtermlike`) are covered only by the generic `_partial` theorems.
   (3) the bytes written by Init (engage) are not modelled here: the emulator state `e0` at the start is any state with
       the parser in the ground state, UTF-8, no alternate character set, replace mode and no complaint (`Good`).
+  (4) `XtermLike` asks, beyond the standard forms, that the direct-colour strings come all three or not at all and that the
+      indexed / direct underline-colour strings come together (true of every entry and of what tcell synthesises; `penOf`
+      would otherwise have to name which of the strings exist).
 -/
 import Tcell.Lemmas.LayerBWorld
 import Tcell.Lemmas.LayerBXterm
+import Tcell.Lemmas.LayerBXtermFx
 import Tcell.Props.C01
 import Tcell.Props.C09
 namespace Tcell.Props.C01B
@@ -294,6 +307,141 @@ theorem sync_faithful_bytes_partial (hc : CfgB c rc) (w h : Int) (hs : SizeOk w 
   exact displaysBytes_of hc (sync_step hc.rwOk hc.noCorner inv).1 R (sync_step hc.rwOk hc.noCorner inv).2.1
     (sync_size hc.rwOk inv)
 
+
+/-! ### the class discharges the hypothesis `CfgB.fx`: byte-level theorems without `CapsFx` -/
+
+/-- **`CfgB` for every `XtermLike` terminal description**: the only things left to assume are about the *configuration*, not
+about the terminal — the rune-width function is well-behaved (`RwOk`, `RwB`: proved for the regenerated table, `rwClip_ok`),
+the locale is UTF-8, the draw path does not use the corner trick and has a hide-cursor string (both follow from `XtermLike`
+for the configuration `drawCfgOf` the driver builds), and the external colour-fitting function returns palette entries. -/
+theorem cfgB_of_xtermlike (hx : XtermLike rc.ti = true) (hd : rc.d = derive rc.ti) (hfit : FitOk rc)
+    (hrw : RwOk c.rw) (hrwB : RwB c.rw) (hp : Utf8Payload c) (hpl : c.Plain) (hh : c.hasHide = true) : CfgB c rc :=
+  { rwOk := hrw, rwB := hrwB, pay := hp, noCorner := hpl, hide := hh, fx := xl_capsFx c hx hd hfit }
+
+/-- the draw configuration of a terminal description in a UTF-8 locale with the regenerated width table, as the driver
+builds it (Driver/Draw.lean `mkCfgs`); `lg`/`wg`/`fz` = which repairs of drawCell / Fill the tree under test has -/
+def drawCfgOf (ti : Terminfo) (lg wg fz : Bool) : DrawCfg :=
+  { rw := rwClip, payload := fun m comb => Utf8.encode m ++ comb.flatMap Utf8.encode, hasHide := !ti.hideCursor.isEmpty,
+    hasCursorStyle := fun cs => match (derive ti).cursorStyles with | some l => cs < l.length | none => false,
+    hasCursorRGB := !(derive ti).cursorRGB.isEmpty,
+    cornerTrick := ti.autoMargin && ti.disableAutoMargin.isEmpty && !ti.insertChar.isEmpty,
+    guardLocked := lg, walkGuard := wg, fillZW := fz }
+
+/-- the render configuration of a terminal description (`mkCfgs`): `tc` = the application did not disable direct colour -/
+def renderCfgOf (ti : Terminfo) (tc : Bool) (fit fit0 : Nat → Nat) : RenderCfg :=
+  { ti := ti, d := derive ti, truecolor := tc && !(ti.setFgBgRGB.isEmpty && ti.setFgRGB.isEmpty && ti.setBgRGB.isEmpty),
+    fit := fit, fit0 := fit0 }
+
+theorem cfgB_of_ti (ti : Terminfo) (hx : XtermLike ti = true) (lg wg fz tc : Bool) (fit fit0 : Nat → Nat)
+    (hwg : wg = true → lg = true) (hfit : FitOk (renderCfgOf ti tc fit fit0)) :
+    CfgB (drawCfgOf ti lg wg fz) (renderCfgOf ti tc fit fit0) := by
+  have h1 := xl_tiOk hx
+  simp only [tiOk, Bool.and_eq_true, beq_iff_eq, and_assoc] at h1
+  obtain ⟨_, _, _, _, a5, _, _, _, _, _, _, _, _, _, _, _, _, a18, _⟩ := h1
+  refine cfgB_of_xtermlike (c := drawCfgOf ti lg wg fz) (rc := renderCfgOf ti tc fit fit0) hx rfl hfit
+    rwClip_ok.1 rwClip_ok.2 (fun _ _ => rfl) ⟨?_, hwg⟩ ?_
+  · show (ti.autoMargin && ti.disableAutoMargin.isEmpty && !ti.insertChar.isEmpty) = false
+    cases h1 : ti.autoMargin <;> cases h2 : ti.disableAutoMargin.isEmpty <;> cases h3 : ti.insertChar.isEmpty <;>
+      simp_all
+  · show (!ti.hideCursor.isEmpty) = true
+    rw [a5]; decide
+
+
+/-- `FitOk` for the configuration of an `XtermLike` entry whose colour fit is tcell's `FindColor` over the screen's palette
+(any colour distance): not an assumption about the library -/
+theorem xl_fitOk_findColor {α : Type} (m : Color.Metric α) (ti : Terminfo) (hx : XtermLike ti = true) (tc : Bool) (fit0 : Nat → Nat) :
+    FitOk (renderCfgOf ti tc (fun c => Color.findColor m c (screenPalette (renderCfgOf ti tc (fun _ => 0) fit0))) fit0) := by
+  apply fitOk_findColor m
+  · show Render.nColors (renderCfgOf ti tc (fun _ => 0) fit0) ≠ 0
+    have h1 := xl_tiOk hx
+    simp only [tiOk, Bool.and_eq_true, beq_iff_eq, and_assoc] at h1
+    obtain ⟨_, _, _, _, _, _, _, _, _, _, _, _, a13, _⟩ := h1
+    simp only [Bool.or_eq_true, Bool.and_eq_true, beq_iff_eq, decide_eq_true_eq, and_assoc] at a13
+    show (if ti.colors > 256 then 256 else ti.colors.toNat) ≠ 0
+    rcases a13 with ⟨hc, _⟩ | ⟨hc, _⟩ <;> split <;> omega
+  · intro c; rfl
+
+section
+variable (ti : Terminfo) (hx : XtermLike ti = true) (lg wg fz tc : Bool) (fit fit0 : Nat → Nat)
+  (hwg : wg = true → lg = true) (hfit : FitOk (renderCfgOf ti tc fit fit0))
+include hx hwg hfit
+
+/-- **Show is faithful at the level of bytes on every `XtermLike` terminal** — `show_faithful_bytes_partial` with the
+hypothesis `CfgB` (in particular `CapsFx`) discharged.  For every terminal description of the class, every variant of the
+draw path (`lg`, `wg`, `fz`), direct colour on or off, every window size, every start state of the emulator with the parser
+in the ground state, and every history of valid operations in the Layer-B domain (`OpB`: no hyperlink, no cursor colour):
+the reference emulator fed exactly the bytes the byte-exact model writes shows after Show, in every unlocked visited cell,
+the payload last set there with the SGR state `penOf` (colours, all attributes, underline style and colour) its style
+denotes, wide runes with their continuation cell, the cursor where requested and visible. -/
+theorem xl_show_faithful_bytes (w h : Int) (hs : SizeOk w h) (e0 : Term) (he : Good rwClip e0)
+    (hw : (e0.grid.w : Int) = w) (hh : (e0.grid.h : Int) = h) (ops : List ScrOp)
+    (hv : ∀ op ∈ ops, op.Valid (drawCfgOf ti lg wg fz) ∧ OpB (drawCfgOf ti lg wg fz) op) :
+    let b := after (drawCfgOf ti lg wg fz) (renderCfgOf ti tc fit fit0) w h e0 ops
+    (b.wd.trusted = true ∨ ¬ (b.wd.sw.ttyw = b.wd.sw.s.w ∧ b.wd.sw.ttyh = b.wd.sw.s.h)) →
+      DisplaysBytes (drawCfgOf ti lg wg fz) (renderCfgOf ti tc fit fit0)
+        (b.step (drawCfgOf ti lg wg fz) (renderCfgOf ti tc fit fit0) .show) :=
+  show_faithful_bytes_partial (cfgB_of_ti ti hx lg wg fz tc fit fit0 hwg hfit) w h hs e0 he hw hh ops hv
+
+/-- **Sync is faithful at the level of bytes on every `XtermLike` terminal, from arbitrary display contents** -/
+theorem xl_sync_faithful_bytes (w h : Int) (hs : SizeOk w h) (e0 : Term) (he : Good rwClip e0)
+    (hw : (e0.grid.w : Int) = w) (hh : (e0.grid.h : Int) = h) (ops : List ScrOp)
+    (hv : ∀ op ∈ ops, op.Valid (drawCfgOf ti lg wg fz) ∧ OpB (drawCfgOf ti lg wg fz) op) :
+    DisplaysBytes (drawCfgOf ti lg wg fz) (renderCfgOf ti tc fit fit0)
+      ((after (drawCfgOf ti lg wg fz) (renderCfgOf ti tc fit fit0) w h e0 ops).step (drawCfgOf ti lg wg fz)
+        (renderCfgOf ti tc fit fit0) .sync) :=
+  sync_faithful_bytes_partial (cfgB_of_ti ti hx lg wg fz tc fit fit0 hwg hfit) w h hs e0 he hw hh ops hv
+
+/-- **C09 on every `XtermLike` terminal**: over every draw history the strict tokenizer accepts every byte and the stream
+ends in the ground state -/
+theorem xl_output_wellformed (w h : Int) (hs : SizeOk w h) (e0 : Term) (he : Good rwClip e0)
+    (hw : (e0.grid.w : Int) = w) (hh : (e0.grid.h : Int) = h) (ops : List ScrOp)
+    (hv : ∀ op ∈ ops, op.Valid (drawCfgOf ti lg wg fz) ∧ OpB (drawCfgOf ti lg wg fz) op) :
+    (after (drawCfgOf ti lg wg fz) (renderCfgOf ti tc fit fit0) w h e0 ops).e.malformed = [] ∧
+      (after (drawCfgOf ti lg wg fz) (renderCfgOf ti tc fit fit0) w h e0 ops).e.st = .ground :=
+  output_wellformed_partial (cfgB_of_ti ti hx lg wg fz tc fit fit0 hwg hfit) w h hs e0 he hw hh ops hv
+
+/-- the simulation invariant after every history, on every `XtermLike` terminal -/
+theorem xl_rep_after (w h : Int) (hs : SizeOk w h) (e0 : Term) (he : Good rwClip e0)
+    (hw : (e0.grid.w : Int) = w) (hh : (e0.grid.h : Int) = h) (ops : List ScrOp)
+    (hv : ∀ op ∈ ops, op.Valid (drawCfgOf ti lg wg fz) ∧ OpB (drawCfgOf ti lg wg fz) op) :
+    Rep (drawCfgOf ti lg wg fz) (renderCfgOf ti tc fit fit0)
+      (after (drawCfgOf ti lg wg fz) (renderCfgOf ti tc fit fit0) w h e0 ops).e
+      (after (drawCfgOf ti lg wg fz) (renderCfgOf ti tc fit fit0) w h e0 ops).wd.t :=
+  rep_after_partial (cfgB_of_ti ti hx lg wg fz tc fit fit0 hwg hfit) w h hs e0 he hw hh ops hv
+end
+
+/-- **the headline for the built-in database**: for each of the 22 `XtermLike` entries Show is faithful at the level of bytes
+(no hypothesis on the terminal left) -/
+theorem db_show_faithful_bytes : ∀ e ∈ Gen.db, e.name ∈ xtermLikeNames →
+    ∀ (lg wg fz tc : Bool) (fit fit0 : Nat → Nat), (wg = true → lg = true) → FitOk (renderCfgOf e tc fit fit0) →
+    ∀ (w h : Int), SizeOk w h → ∀ (e0 : Term), Good rwClip e0 → (e0.grid.w : Int) = w → (e0.grid.h : Int) = h →
+    ∀ (ops : List ScrOp), (∀ op ∈ ops, op.Valid (drawCfgOf e lg wg fz) ∧ OpB (drawCfgOf e lg wg fz) op) →
+      let b := after (drawCfgOf e lg wg fz) (renderCfgOf e tc fit fit0) w h e0 ops
+      (b.wd.trusted = true ∨ ¬ (b.wd.sw.ttyw = b.wd.sw.s.w ∧ b.wd.sw.ttyh = b.wd.sw.s.h)) →
+        DisplaysBytes (drawCfgOf e lg wg fz) (renderCfgOf e tc fit fit0)
+          (b.step (drawCfgOf e lg wg fz) (renderCfgOf e tc fit fit0) .show) :=
+  fun e he hn lg wg fz tc fit fit0 hwg hfit w h hs e0 hg hw hh ops hv =>
+    xl_show_faithful_bytes e (db_xtermlike' e he hn) lg wg fz tc fit fit0 hwg hfit w h hs e0 hg hw hh ops hv
+
+theorem db_sync_faithful_bytes : ∀ e ∈ Gen.db, e.name ∈ xtermLikeNames →
+    ∀ (lg wg fz tc : Bool) (fit fit0 : Nat → Nat), (wg = true → lg = true) → FitOk (renderCfgOf e tc fit fit0) →
+    ∀ (w h : Int), SizeOk w h → ∀ (e0 : Term), Good rwClip e0 → (e0.grid.w : Int) = w → (e0.grid.h : Int) = h →
+    ∀ (ops : List ScrOp), (∀ op ∈ ops, op.Valid (drawCfgOf e lg wg fz) ∧ OpB (drawCfgOf e lg wg fz) op) →
+      DisplaysBytes (drawCfgOf e lg wg fz) (renderCfgOf e tc fit fit0)
+        ((after (drawCfgOf e lg wg fz) (renderCfgOf e tc fit fit0) w h e0 ops).step (drawCfgOf e lg wg fz)
+          (renderCfgOf e tc fit fit0) .sync) :=
+  fun e he hn lg wg fz tc fit fit0 hwg hfit w h hs e0 hg hw hh ops hv =>
+    xl_sync_faithful_bytes e (db_xtermlike' e he hn) lg wg fz tc fit fit0 hwg hfit w h hs e0 hg hw hh ops hv
+
+theorem db_output_wellformed : ∀ e ∈ Gen.db, e.name ∈ xtermLikeNames →
+    ∀ (lg wg fz tc : Bool) (fit fit0 : Nat → Nat), (wg = true → lg = true) → FitOk (renderCfgOf e tc fit fit0) →
+    ∀ (w h : Int), SizeOk w h → ∀ (e0 : Term), Good rwClip e0 → (e0.grid.w : Int) = w → (e0.grid.h : Int) = h →
+    ∀ (ops : List ScrOp), (∀ op ∈ ops, op.Valid (drawCfgOf e lg wg fz) ∧ OpB (drawCfgOf e lg wg fz) op) →
+      (after (drawCfgOf e lg wg fz) (renderCfgOf e tc fit fit0) w h e0 ops).e.malformed = [] ∧
+        (after (drawCfgOf e lg wg fz) (renderCfgOf e tc fit fit0) w h e0 ops).e.st = .ground :=
+  fun e he hn lg wg fz tc fit fit0 hwg hfit w h hs e0 hg hw hh ops hv =>
+    xl_output_wellformed e (db_xtermlike' e he hn) lg wg fz tc fit fit0 hwg hfit w h hs e0 hg hw hh ops hv
+
 /-! ### C09: cursor addressing is accepted by the strict tokenizer for ALL positions -/
 
 /-- for every `XtermLike` terminal and every row and column a Go int can hold, the bytes `TPuts(TGoto(col,row))` writes are
@@ -315,5 +463,66 @@ example : OpB { rw := rwClip, payload := fun m comb => Utf8.encode m ++ comb.fla
     (.setContent 2 0 0x61 [0x301] {}) := ⟨by
       intro k hk; simp only [List.mem_singleton] at hk; subst hk
       exact ⟨by decide +kernel, by decide, by decide⟩, rfl⟩
+
+
+/-! ### non-vacuity of the `XtermLike` theorems: xterm-256color, a coloured, underlined wide rune -/
+
+/-- the regenerated `xterm-256color` entry, direct colour off, a (dummy) fitting function that always answers palette
+entry 17, the tree as it is (locked-neighbour guard and Fill repair compiled in) -/
+def rcDemo : RenderCfg := renderCfgOf Gen.e44 false (fun _ => 2^32 + 17) (fun _ => 2^32)
+def dcDemo : DrawCfg := drawCfgOf Gen.e44 true false true
+def e0Demo : Term := Term.init { w := 4, h := 2, rw := rwClip }
+/-- palette red 196 on an RGB background (fitted: no direct colour here), bold, curly underline in palette colour 33 -/
+def stDemo : Style := { fg := 2^32 + 196, bg := 2^33 + 2^32 + 0x102030, ulStyle := 3, ulColor := 2^32 + 33, attrs := 1 }
+def opsDemo : List ScrOp := [.setContent 0 0 0x4e16 [] stDemo, .setContent 2 0 0x61 [0x301] {}, .showCursor 2 0]
+def bDemo : BWorld := (after dcDemo rcDemo 4 2 e0Demo opsDemo).step dcDemo rcDemo .show
+
+theorem e44_mem : Gen.e44 ∈ Gen.db := by simp [Gen.db]
+theorem e44_name : Gen.e44.name ∈ xtermLikeNames := by decide
+
+theorem fitDemo : FitOk rcDemo := by
+  intro col
+  have : Render.nColors rcDemo = 256 := by decide
+  have e : rcDemo.fit col = 2^32 + 17 := rfl
+  rw [this, e]; omega
+
+theorem opsDemo_ok : ∀ op ∈ opsDemo, op.Valid dcDemo ∧ OpB dcDemo op := by
+  intro op hop
+  simp only [opsDemo, List.mem_cons, List.not_mem_nil, or_false] at hop
+  rcases hop with rfl | rfl | rfl
+  · exact ⟨by simp [ScrOp.Valid, attrInvalid, stDemo], by simp, rfl⟩
+  · refine ⟨by simp [ScrOp.Valid, attrInvalid], ?_, rfl⟩
+    intro k hk; simp only [List.mem_singleton] at hk; subst hk
+    exact ⟨by decide +kernel, by decide, by decide⟩
+  · exact ⟨by simp [ScrOp.Valid], trivial⟩
+
+/-- every hypothesis of `db_show_faithful_bytes` holds for this world -/
+example : DisplaysBytes dcDemo rcDemo bDemo :=
+  db_show_faithful_bytes Gen.e44 e44_mem e44_name true false true false _ _ (fun h => absurd h (by decide)) fitDemo 4 2
+    (by unfold SizeOk TParm.maxInt64; omega) e0Demo ⟨rfl, rfl, rfl, rfl, rfl, rfl, rfl, rfl⟩ rfl rfl opsDemo opsDemo_ok
+    (Or.inl (by decide +kernel))
+
+set_option maxRecDepth 100000 in
+/-- … and this is what the emulator grid shows (kernel evaluation of the emulator on the bytes of the model): the wide rune
+with `SGR 0 ; 38;5;196 ; 48;5;17 ; 1 ; 58:5:33 ; 4 ; 4:3`, its continuation cell, the combining mark on `a`, the cursor -/
+example : (bDemo.e.grid.get 0 0).runes = [0x4e16] ∧
+    (bDemo.e.grid.get 0 0).pen = { fg := .idx 196, bg := .idx 17, bold := true, ul := 3, ulColor := .idx 33 } ∧
+    (bDemo.e.grid.get 0 0).pen = penOf rcDemo stDemo ∧
+    (bDemo.e.grid.get 0 0).garbage = false ∧ (bDemo.e.grid.get 1 0).cont = true ∧
+    (bDemo.e.grid.get 2 0).runes = [0x61, 0x301] ∧ (bDemo.e.grid.get 2 0).pen = {} ∧
+    (bDemo.e.cx, bDemo.e.cy) = (2, 0) ∧ bDemo.e.modes.cursorVisible = true ∧ bDemo.e.malformed = [] := by decide +kernel
+
+/-- direct colour: the same entry after `terminfo.LookupTerminfo` has added the three RGB strings (COLORTERM=truecolor,
+terminfo.go:799-816) is still in the class, and the RGB background reaches the emulator exactly -/
+def tiDirect : Terminfo := { Gen.e44 with setFgRGB := setfRGB, setBgRGB := setbRGB, setFgBgRGB := setfbRGB }
+theorem tiDirect_xl : XtermLike tiDirect = true := by decide +kernel
+def rcDirect : RenderCfg := renderCfgOf tiDirect true (fun _ => 2^32 + 17) (fun _ => 2^32)
+def dcDirect : DrawCfg := drawCfgOf tiDirect true false true
+def bDirect : BWorld := (after dcDirect rcDirect 4 2 e0Demo opsDemo).step dcDirect rcDirect .show
+
+set_option maxRecDepth 100000 in
+example : (bDirect.e.grid.get 0 0).pen =
+      { fg := .idx 196, bg := .rgb 0x10 0x20 0x30, bold := true, ul := 3, ulColor := .idx 33 } ∧
+    (bDirect.e.grid.get 0 0).pen = penOf rcDirect stDemo ∧ bDirect.e.malformed = [] := by decide +kernel
 
 end Tcell.Props.C01B
